@@ -415,7 +415,14 @@ func (f *frame) callEnv(callee *ssa.Function, fs *FuncSpec, args []Val, results 
 	if fs != nil && len(fs.Params) > 0 {
 		for i, p := range fs.Params {
 			if i < len(args) {
-				vars[p.Name] = args[i]
+				a := args[i]
+				// the receiver of a method answering to an interface contract is seen as the interface value
+				if i == 0 && fs.Implements != "" && callee != nil && callee.Signature.Recv() != nil {
+					if _, isI := a.T.Underlying().(*types.Interface); !isI {
+						a = c.makeInterface(a, a.T, types.NewInterfaceType(nil, nil))
+					}
+				}
+				vars[p.Name] = a
 			}
 		}
 	}
@@ -475,6 +482,10 @@ func (env *Env) evalModLoc(x ast.Expr, src string) []modLoc {
 				s := env.eval(call.Args[0])
 				el := elemType(s.T)
 				return []modLoc{{root: el, lo: 0, hi: len(leavesOf(el)), obj: s.L[0], allIdx: true, src: src}}
+			case "family":
+				// family(T): every cell of every object of type T (used for value-like foreign types)
+				typ := env.c.eng.resolveTypeExpr(env.pkg, call.Args[0])
+				return []modLoc{{root: typ, lo: 0, hi: len(leavesOf(typ)), obj: IntT(0), anyObj: true, allIdx: true, src: src}}
 			case "mapof":
 				m := env.eval(call.Args[0])
 				return []modLoc{{mapT: m.T.Underlying().(*types.Map), obj: m.L[0], src: src}}
@@ -547,6 +558,16 @@ func (f *frame) applyContract(fs *FuncSpec, callee *ssa.Function, sig *types.Sig
 			} else {
 				var cs []*Term
 				for k := l.lo; k < l.hi; k++ {
+					if l.anyObj {
+						ok := TFalse
+						for _, m := range c.modLocs {
+							if m.anyObj && rootKey(m.root) == rootKey(l.root) {
+								ok = TTrue
+							}
+						}
+						cs = append(cs, ok)
+						continue
+					}
 					if l.allIdx {
 						var alts []*Term
 						alts = append(alts, Ge(l.obj, alloc0))
